@@ -129,6 +129,20 @@ def generate(unit_dir, mustfail=False, mutate=None, variant=None, template='unit
             g.properties = o.get('properties', '').split(',') if o.get('properties') else []
             g.opts = o
             i += 1
+        elif cmd == 'file':
+            # whole source file (replay programs only): the test module is cut off, the rest is verbatim
+            rel = words[1]
+            o = parse_opts(words[2:])
+            rf = load(rel)
+            txt = rf.text
+            mm = re.search(r'^#\[cfg\(test\)\]\s*\nmod tests \{', txt, re.M)
+            if mm:
+                txt = txt[:mm.start()]
+            if o.get('mod'):
+                txt = 'pub mod %s {\n%s\n}' % (o['mod'], txt)
+            out.extend(txt.split('\n'))
+            g.items.append(dict(file=rel, kind='file', name=rel, sha=hashlib.sha256(txt.encode()).hexdigest()[:16], gen_lines=(0, 0)))
+            i += 1
         elif cmd == 'item':
             rel, kind, name = words[1], words[2], words[3]
             o = parse_opts(words[4:])
